@@ -253,6 +253,93 @@ func checkC19(p *Prog, r *Report) {
 			r.okTrivial(rule, "no fixed-size array is indexed by a variable in the lexer/parser", "-", "", "0 sites")
 		}
 	}
+	// (5b) a string parameter indexed at a constant position needs a visible non-emptiness / length test
+	{
+		rl := "E5.fixed-array-index-bounded"
+		for _, fn := range p.Funcs("parse/asp") {
+			if !parseFiles[p.fileOf(fn)] {
+				continue
+			}
+			eachInstr(fn, false, func(_ *ssa.Function, i ssa.Instruction) {
+				var lkX, lkIndex ssa.Value
+				var lk ssa.Instruction
+				switch x := i.(type) {
+				case *ssa.Lookup:
+					lkX, lkIndex, lk = x.X, x.Index, x
+				case *ssa.Index:
+					lkX, lkIndex, lk = x.X, x.Index, x
+				default:
+					return
+				}
+				bt, isStr := lkX.Type().Underlying().(*types.Basic)
+				if !isStr || bt.Info()&types.IsString == 0 {
+					return
+				}
+				k, isC := constInt(lkIndex)
+				prm, isPrm := lkX.(*ssa.Parameter)
+				if !isC || !isPrm {
+					return
+				}
+				guarded := false
+				for _, f := range factsAt(lk) {
+					bo, ok := f.V.(*ssa.BinOp)
+					if !ok {
+						continue
+					}
+					// len(s) compared with a constant, or s compared with ""
+					for _, op := range []ssa.Value{bo.X, bo.Y} {
+						if c, ok := op.(*ssa.Call); ok {
+							if b, ok := c.Call.Value.(*ssa.Builtin); ok && b.Name() == "len" && c.Call.Args[0] == ssa.Value(prm) {
+								guarded = true
+							}
+						}
+						if op == ssa.Value(prm) {
+							guarded = true
+						}
+					}
+				}
+				r.check(guarded, rl, fn.Name()+": "+prm.Name()+"["+itoa(int(k))+"] is read under a length test", p.pos(lk.Pos()), fnName(fn), "a dominating comparison involves len("+prm.Name()+") or "+prm.Name()+" itself", "a string parameter is indexed at a constant position with nothing establishing that it is long enough: for an empty string (e.g. an empty component in f'{y.}') the parser raises `index out of range`, reported without file or position")
+			})
+		}
+	}
+	// (6) the error path runs on every parse goroutine at once: state it shares at package level is written under an
+	// exclusive lock (a concurrent map write is a fatal error that no recover can contain)
+	{
+		rl := "E6.shared-error-state-locked"
+		n, bad := 0, 0
+		var site token.Pos
+		for _, fn := range p.Funcs("parse/asp") {
+			eachInstr(fn, false, func(_ *ssa.Function, i ssa.Instruction) {
+				mu, ok := i.(*ssa.MapUpdate)
+				if !ok {
+					return
+				}
+				_, isGlobal := rootOf(mu.Map).(*ssa.Global)
+				if !isGlobal || fn.Name() == "init" || strings.HasPrefix(fn.Name(), "init#") {
+					return
+				}
+				n++
+				locked := false
+				eachInstr(fn, false, func(_ *ssa.Function, j ssa.Instruction) {
+					if c, ok := j.(*ssa.Call); ok && instrDominates(c, mu) {
+						switch calleeName(&c.Call) {
+						case "(*sync.Mutex).Lock", "(*sync.RWMutex).Lock":
+							locked = true
+						}
+					}
+				})
+				if !locked {
+					bad++
+					site = mu.Pos()
+				}
+			})
+		}
+		if n == 0 {
+			r.ok(rl, "no package-level map of the parser is written after initialisation", "-", "", "0 map updates on package-level maps outside init")
+		} else {
+			r.check(bad == 0, rl, "package-level maps are written under an exclusive lock", p.pos(site), "parse/asp", itoa(n)+" update(s), each dominated by Lock()", "a package-level map in the parser is written without an exclusive lock (e.g. under RLock only): two goroutines that hit a syntax error at the same time write it concurrently, and the Go runtime kills the process with `concurrent map writes` - ParseData never returns")
+		}
+	}
 	_ = token.NoPos
 }
 
